@@ -548,7 +548,7 @@ fn main() {
     let mut t = Trace::from_args();
     let seed = seed_from_env();
     let thorough = arg_str("--tier").as_deref() == Some("thorough");
-    let nseq = arg_u64("--seqs", if thorough { 500 } else { 90 });
+    let nseq = arg_u64("--seqs", if thorough { 500 } else { 160 });
     let len = arg_u64("--len", 36);
     let mut rng = Rng::new(seed);
     directed(&mut t);
